@@ -11,6 +11,21 @@ for p in props:
     c = claims.get(p, {})
     have = os.path.exists(os.path.join(V, "sa", "rules", p.lower() + ".py"))
     if have and not c.get("not_applicable"):
+        # rules the hand-written claim text does not mention yet are appended from their docstrings
+        mod = importlib.import_module("sa.rules." + p.lower())
+        extra = []
+        for rid, fn, floor in mod.rules():
+            if f"({rid})" in c["text"] or f"{rid} " in c["text"]:
+                continue
+            d = " ".join((fn.__doc__ or "").strip().split())
+            if d.startswith(rid):
+                d = d[len(rid):].strip()
+            d = d.split(" - ")[0]
+            extra.append(f"({rid}) {d[:260].rstrip().rstrip('.')}")
+        if extra:
+            nd = c["text"].rfind(". ")
+            c = dict(c)
+            c["text"] = c["text"].rstrip() + " Further necessary conditions decided by rules added after the seeded rounds: " + "; ".join(extra) + "."
         checks.append({
             "property_id": p,
             "quick_cmd": f"./check {p} --tier quick",
